@@ -532,7 +532,13 @@ func c03Recursion(c *Ctx, entry *ssa.Function, d *Dispatcher, rr *ReachResult) {
 				if ok, w := descending(at.Call.Args[0], f, depth); !ok {
 					return false, w
 				}
-			case rt.Kind == "param" && len(rt.Path) == 0 && depth < 3 && f != d.Fn:
+			case rt.Kind == "call" && rt.Fn != nil && typeName(recvType(rt.Fn)) == "NodeList" && fnBase(rt.Fn) == "Array":
+			// an element of the list's slice (`for _, e := range node.List.Array()`)
+			arr := rt.V.(*ssa.Call)
+			if ok, w := descending(arr.Call.Args[0], f, depth); !ok {
+				return false, w
+			}
+		case rt.Kind == "param" && len(rt.Path) == 0 && depth < 3 && f != d.Fn:
 				// helper: all of its call sites must pass descending values
 				idx := rt.Idx
 				n := 0
